@@ -131,11 +131,11 @@ type c01State struct {
 	evs  []ev
 	inv  [][3]int
 	// results of API calls
-	startErr    error
-	shutdownErr error
+	startErr      error
+	shutdownErr   error
 	startT, stopT time.Duration
-	anyFailure  bool // some lifecycle routine failed or an API call returned an error so far
-	earlyDone   chan struct{} // closed when the Shutdown issued during Start has returned and was checked
+	anyFailure    bool          // some lifecycle routine failed or an API call returned an error so far
+	earlyDone     chan struct{} // closed when the Shutdown issued during Start has returned and was checked
 }
 
 var phaseNames = [3]string{"prep", "start", "stop"}
